@@ -553,6 +553,7 @@ def der_open(der, passphrase=None):
         if passphrase is None:
             raise Bad("epki/needs-passphrase", "")
         pt, enc = pbes2_open(node, passphrase)
+        enc["ptlen"] = len(pt)
         try:
             node = strict(pt, "decrypted PrivateKeyInfo")
         except Bad as b:
